@@ -112,6 +112,9 @@ def run_group(mode: str, descs: list[dict]):
                              delay=delay, hostname=f"ac-{k}.home.lan" if mode == "hostname" else None))
     pop = sd.Population(hosts)
     w.net.udp_responder = pop
+    for h_ in hosts:
+        if h_.hostname:
+            w.net.dns[h_.hostname] = h_.ip
     if mode == "autoconnect":
         for d in descs:
             if d["version"] == 2:
